@@ -7,24 +7,24 @@ each replayed scenario exists in four variants for what C18 leaves open:
 import os
 
 HERE = os.path.dirname(os.path.abspath(__file__))
-INV = "INVARIANTS TypeOK Converged LearnsLive ForgetsDead SelfListed NoDuplicateAddr ChannelSane\nPROPERTIES CallbackIffChange NoResurrection\n"
+INV = "INVARIANTS TypeOK Converged LearnsLive ForgetsDead SelfListed PeriodRestored NoDuplicateAddr ChannelSane\nPROPERTIES CallbackIffChange NoResurrection\n"
 
-# name: (Addr, Gaps, D, MaxEvents)
+# name: (Addr, Gaps, D, MaxEvents, MaxFails)
 SCEN = {
-    "pair_q":     ("Addr2", "GapsFixed2", 1, 3),          # quick walk / quick timed model check
-    "pair_t":     ("Addr2", "GapsJitter2", 1, 4),         # thorough walk: jitter
-    "restart":    ("AddrRestart", "GapsRestartF", 0, 4),  # thorough walk: a process replaced by a new id on the same address
-    "trio":       ("Addr3", "GapsFixed3", 0, 3),          # thorough walk: three nodes, same-instant delivery in any order
-    "pair_mc":    ("Addr2", "GapsJitter2", 2, 6),         # thorough model check only: jitter, delay up to 2 ticks
-    "restart_mc": ("AddrRestart", "GapsRestart", 1, 4),   # thorough model check only
-    "trio_mc":    ("Addr3", "GapsFixed3", 0, 4),          # thorough model check only
+    "pair_q":     ("Addr2", "GapsFixed2", 1, 3, 1),          # quick walk / quick timed model check
+    "pair_t":     ("Addr2", "GapsJitter2", 1, 3, 2),         # thorough walk: jitter, two failed publishes
+    "restart":    ("AddrRestart", "GapsRestartF", 0, 4, 1),  # thorough walk: a process replaced by a new id on the same address
+    "trio":       ("Addr3", "GapsFixed3", 0, 3, 0),          # thorough walk: three nodes, same-instant delivery in any order
+    "pair_mc":    ("Addr2", "GapsJitter2", 2, 4, 3),         # thorough model check only: jitter, delay up to 2 ticks, 3 failures
+    "restart_mc": ("AddrRestart", "GapsRestart", 1, 4, 1),   # thorough model check only
+    "trio_mc":    ("Addr3", "GapsFixed3", 0, 4, 1),          # thorough model check only
 }
 
 
-def consts(s, closed, cb, quiet):
-    a, g, d, e = SCEN[s]
-    return ("CONSTANTS\n  Addr <- %s\n  Gaps <- %s\n  T = 10\n  D = %d\n  MaxEvents = %d\n  Closed = %s\n  ObserveCb = %s\n  TrackQuiet = %s\n  UnitMs = 1000\n"
-            % (a, g, d, e, closed, cb, quiet))
+def consts(s, closed, cb, quiet, backoff="FALSE"):
+    a, g, d, e, f = SCEN[s]
+    return ("CONSTANTS\n  Addr <- %s\n  Gaps <- %s\n  T = 10\n  D = %d\n  MaxEvents = %d\n  MaxFails = %d\n  Backoff = %s\n  Closed = %s\n  ObserveCb = %s\n  TrackQuiet = %s\n  UnitMs = 1000\n"
+            % (a, g, d, e, f, backoff, closed, cb, quiet))
 
 
 def write(name, text):
@@ -32,13 +32,21 @@ def write(name, text):
         fh.write(text)
 
 
+# variants of a replayed graph: c/n/oc/on as above with the code's fixed refresh period;
+# nb/onb: an implementation that backs off while publishes fail (callbacks not compared)
+VARIANTS = (("c", "TRUE", "TRUE", "FALSE"), ("n", "TRUE", "FALSE", "FALSE"), ("oc", "FALSE", "TRUE", "FALSE"), ("on", "FALSE", "FALSE", "FALSE"),
+            ("nb", "TRUE", "FALSE", "TRUE"), ("onb", "FALSE", "FALSE", "TRUE"))
 for s in ("pair_q", "pair_t", "restart", "trio"):
-    for v, closed, cb in (("c", "TRUE", "TRUE"), ("n", "TRUE", "FALSE"), ("oc", "FALSE", "TRUE"), ("on", "FALSE", "FALSE")):
+    for v, closed, cb, bo in VARIANTS:
+        if bo == "TRUE" and SCEN[s][4] == 0:
+            continue
         # replayed graph: the quiet counter is frozen (it would only multiply the states)
-        write(f"MC_Peers_{s}_{v}.cfg", "SPECIFICATION Spec\n" + consts(s, closed, cb, "FALSE") + INV + "ACTION_CONSTRAINT Dump\nVIEW View\n")
+        write(f"MC_Peers_{s}_{v}.cfg", "SPECIFICATION Spec\n" + consts(s, closed, cb, "FALSE", bo) + INV + "ACTION_CONSTRAINT Dump\nVIEW View\n")
 for s in ("pair_q", "pair_mc", "restart_mc", "trio_mc"):
     # the timed invariants on the same (or a larger) bound
     write(f"MC_Peers_{s}_timed.cfg", "SPECIFICATION Spec\n" + consts(s, "TRUE", "TRUE", "TRUE") + INV + "VIEW View\n")
+# ... and for an implementation with backoff (model check only)
+write("MC_Peers_pair_q_backoff_timed.cfg", "SPECIFICATION Spec\n" + consts("pair_q", "TRUE", "TRUE", "TRUE", "TRUE") + INV + "VIEW View\n")
 for s in ("pair_q", "pair_mc", "restart_mc", "trio"):
     # liveness under fairness (no VIEW: act is part of the behaviour graph)
     write(f"MC_Peers_{s}_live.cfg", "SPECIFICATION FairSpec\n" + consts(s, "TRUE", "TRUE", "FALSE") + "INVARIANTS TypeOK\nPROPERTIES EventuallyAgreed HashCatchesUp\n")
